@@ -188,6 +188,32 @@ type snap struct {
 	kids                          map[int][]int // sons of every node object of the tree below Root
 	mainObjs                      map[*bft.ProposalNode]bool // the node objects reachable from Root
 	nilSons                       []int                      // ids of node objects whose Sons slice holds a nil pointer
+	noOrphanStore                 bool                       // OrphanList or OrphanMap is nil: the first orphan panics
+}
+
+// dumpWalk = QCPendingTree.VerifDump of the export shim (preorder over Root and every orphan root, the order of
+// DFSQuery, bounded), done here over the exported fields so that a tree without an orphan list can still be walked.
+func dumpWalk(t *bft.QCPendingTree, limit int) []bft.VerifDumpNode {
+	var res []bft.VerifDumpNode
+	var walk func(n, parent *bft.ProposalNode, orphan bool, depth int)
+	walk = func(n, parent *bft.ProposalNode, orphan bool, depth int) {
+		if n == nil || len(res) >= limit {
+			return
+		}
+		res = append(res, bft.VerifDumpNode{Node: n, Parent: parent, Orphan: orphan, Depth: depth})
+		for _, c := range n.Sons {
+			walk(c, n, orphan, depth+1)
+		}
+	}
+	walk(t.Root, nil, false, 0)
+	if t.OrphanList != nil {
+		for e := t.OrphanList.Front(); e != nil; e = e.Next() {
+			if n, ok := e.Value.(*bft.ProposalNode); ok {
+				walk(n, nil, true, 0)
+			}
+		}
+	}
+	return res
 }
 
 const walkLimit = 4000
@@ -204,8 +230,9 @@ func takeSnap(x *world) *snap {
 		s.rootView = t.Root.In.GetProposalView()
 	}
 	s.pmView = x.pm.GetCurrentView()
-	walk := t.VerifDump(walkLimit)
+	walk := dumpWalk(t, walkLimit)
 	s.truncated = len(walk) >= walkLimit
+	s.noOrphanStore = t.OrphanList == nil || t.OrphanMap == nil
 	curRoot := -1
 	for _, d := range walk {
 		id := nodeID(d.Node)
@@ -340,6 +367,9 @@ func check(x *world, op []string, okAns bool, before, after *snap) []viol {
 	}
 	for _, id := range after.nilSons {
 		add("nil-son", "the Sons slice of node %d holds a nil pointer", id)
+	}
+	if after.noOrphanStore {
+		add("orphan-store-missing", "OrphanList / OrphanMap of the tree is nil: a proposal whose parent has not arrived cannot be stored")
 	}
 	// 2. every non-root node hangs under the node its ParentId names
 	for _, e := range after.edgeBad {
@@ -638,7 +668,16 @@ func apply(x *world, f []string) (status string) {
 }
 
 // step executes one op line on the current case; returns the canonical answer and the violations.
-func step(line string) (string, []viol) {
+func step(line string) (ans string, vs []viol) {
+	defer func() {
+		// the structure could not even be walked / judged: a violation with the case so far as the failing input
+		if r := recover(); r != nil {
+			if w != nil && (len(w.ops) == 0 || w.ops[len(w.ops)-1] != line) {
+				w.ops = append(w.ops, line)
+			}
+			ans, vs = "unwalkable", []viol{{"structure-unwalkable", fmt.Sprintf("walking / judging the structure after `%s` panicked: %v", line, r)}}
+		}
+	}()
 	f := strings.Fields(line)
 	if len(f) == 0 {
 		return "bad-op", nil
@@ -658,7 +697,6 @@ func step(line string) (string, []viol) {
 		w.ops = []string{line}
 		if st != "ok" {
 			w.impl = []string{st}
-			var vs []viol
 			if st == "panic" {
 				vs = append(vs, viol{"init:panic", fmt.Sprintf("InitQCTree(start %d, ledger 0..%d) panicked", start, tip)})
 			} else if start >= 1 && start-1 <= tip {
@@ -668,7 +706,7 @@ func step(line string) (string, []viol) {
 		}
 		s := takeSnap(w)
 		w.impl = []string{"ok " + s.dump()}
-		vs := check(w, f, true, s, s)
+		vs = check(w, f, true, s, s)
 		if !(start >= 1 && start-1 <= tip) {
 			vs = append(vs, viol{"init:tree-without-genesis-block", fmt.Sprintf("InitQCTree(start %d, ledger 0..%d) built a tree although block %d is not on the ledger", start, tip, start-1)})
 		}
@@ -694,7 +732,6 @@ func step(line string) (string, []viol) {
 		return "bad-op", nil
 	}
 	after := takeSnap(w)
-	var ans string
 	if f[0] == "pm" {
 		ans = fmt.Sprintf("view %d", after.pmView)
 	} else {
@@ -702,7 +739,6 @@ func step(line string) (string, []viol) {
 	}
 	w.ops = append(w.ops, line)
 	w.impl = append(w.impl, ans)
-	var vs []viol
 	if st == "panic" {
 		vs = append(vs, viol{"panic", "the operation panicked"})
 	}
@@ -955,8 +991,8 @@ func exhaustiveFrom(reset string, lo, tip, n int, f func([]string)) {
 // restart at tip 0, 1, 2, >= 3, start heights whose predecessor block is not on the ledger), each continued with
 // (a) the chain growing by six proposals through proposal-with-commit / certification steps (the root has to move),
 // (b) a rollback to every block of the ledger, (c) every tree of <= n new proposals below the last five ledger blocks
-// in every arrival order (exhaustiveFrom).
-func exhaustiveInit(maxTip, n int, f func([]string)) {
+// in every arrival order (exhaustiveFrom; n+1 proposals for tip <= deepTip).
+func exhaustiveInit(maxTip, n, deepTip int, f func([]string)) {
 	for tip := 0; tip <= maxTip; tip++ {
 		for start := 0; start <= tip+2; start++ {
 			reset := fmt.Sprintf("reset %d %d", start, tip)
@@ -981,7 +1017,7 @@ func exhaustiveInit(maxTip, n int, f func([]string)) {
 			}
 			ops = append(ops, fmt.Sprintf("ins %d %d %d %d", tip+1, tip+1, tip, tip), fmt.Sprintf("high %d", tip+1))
 			f(ops)
-			for m := 1; m <= n; m++ {
+			for m := 1; m <= n || (m == n+1 && tip <= deepTip); m++ {
 				exhaustiveFrom(reset, max(0, tip-4), tip, m, f)
 			}
 		}
@@ -1106,9 +1142,9 @@ func main() {
 		out.Count("corpus-file")
 	}
 	rng := xvlib.NewRng(args.Seed)
-	exN, randCases, initTip, initN := 5, 20000, 7, 3
+	exN, randCases, initTip, initN, initDeep := 5, 20000, 7, 3, -1
 	if args.Tier == "thorough" {
-		exN, randCases, initTip, initN = 6, 150000, 9, 3
+		exN, randCases, initTip, initN, initDeep = 6, 150000, 9, 3, 5
 	}
 	if v := xvlib.EnvInt("XV_QCTREE_EXN", 0); v > 0 {
 		exN = v
@@ -1116,7 +1152,7 @@ func main() {
 	for n := 1; n <= exN; n++ {
 		exhaustive(n, runCaseOut)
 	}
-	exhaustiveInit(initTip, initN, runCaseOut)
+	exhaustiveInit(initTip, initN, initDeep, runCaseOut)
 	for i := 0; i < randCases; i++ {
 		ops := randomCase(rng)
 		runCaseOut(ops)
@@ -1125,5 +1161,9 @@ func main() {
 		}
 	}
 	out.Stats.Exhaustive = false
-	out.Stats.Rule = fmt.Sprintf("InitQCTree (the real function over a ledger of blocks 0..tip) for every tip ≤ %d × every start height 0..tip+2, each continued with chain growth through proposal-with-commit steps, rollbacks to every ledger block and every tree of ≤ %d new proposals below the last five ledger blocks in every arrival order; one random case in three starts from such a tree (tip ≤ 8); ", initTip, initN) + fmt.Sprintf("every block tree of n ≤ %d proposals (all parent vectors) × every arrival order (n! permutations), each followed by certification and commit of the deepest proposal, one duplicate arrival and one more certification; plus %d random cases: block trees of 3..12 proposals (chain bias 30/60/85%%, occasional view gaps), arrival orders from parents-first to children-first to uniformly random, interleaved updateHighQC / vote-quorum / updateCommit / enforceUpdateHighQC / pacemaker / duplicate arrivals / proposal-with-commit ops and a full re-delivery; after EVERY op the full dump is compared with the model and the C15 oracle is evaluated on the real pointer structure; a case is non-trivial if it ends with orphans, a moved root, pruned/expired proposals or ≥ 3 tree nodes; distinct by op list", exN, randCases)
+	deepNote := ""
+	if initDeep >= 0 {
+		deepNote = fmt.Sprintf(" (%d for tip ≤ %d)", initN+1, initDeep)
+	}
+	out.Stats.Rule = fmt.Sprintf("InitQCTree (the real function over a ledger of blocks 0..tip) for every tip ≤ %d × every start height 0..tip+2, each continued with chain growth through proposal-with-commit steps, rollbacks to every ledger block and every tree of ≤ %d new proposals%s below the last five ledger blocks in every arrival order; one random case in three starts from such a tree (tip ≤ 8); ", initTip, initN, deepNote) + fmt.Sprintf("every block tree of n ≤ %d proposals (all parent vectors) × every arrival order (n! permutations), each followed by certification and commit of the deepest proposal, one duplicate arrival and one more certification; plus %d random cases: block trees of 3..12 proposals (chain bias 30/60/85%%, occasional view gaps), arrival orders from parents-first to children-first to uniformly random, interleaved updateHighQC / vote-quorum / updateCommit / enforceUpdateHighQC / pacemaker / duplicate arrivals / proposal-with-commit ops and a full re-delivery; after EVERY op the full dump is compared with the model and the C15 oracle is evaluated on the real pointer structure; a case is non-trivial if it ends with orphans, a moved root, pruned/expired proposals or ≥ 3 tree nodes; distinct by op list", exN, randCases)
 }
